@@ -2,7 +2,7 @@
    generated from resource.py (Gen/resource_site.v, tie T):
      - the nested-site tree, Site.render / Site.render_to_pipe dispatch (resource.py:407-413, 464-487),
      - Site.get_resources_as_linkheader (resource.py:441-462), Link/LinkFormat.__str__ (util/linkformat.py),
-     - WKCResource.render_get with any number of filter queries (resource.py:248-319; late-bound closures), Link.__getattr__,
+     - WKCResource.render_get with any number of filter queries (resource.py:248-329),
      - the path Message.get_request_uri reconstructs on the server (message.py:613-634),
      - add_resource / remove_resource applied to a site addressed inside the tree.
    No proofs in this file. *)
@@ -127,54 +127,8 @@ Definition link_matches (k v : string) (l : link) : bool :=
 Definition filter_links (k v : string) (ls : list link) : list link := filter (link_matches k v) ls.
 Definition impl_info_links (impl_info : option string) : list link :=
   match impl_info with Some h => [(h, [("rel", Some "impl-info")])] | None => [] end.
-(* ---- several Uri-Query options (resource.py:258-302).  Every query with "=" appends one lambda to [filters]; the lambdas refer to the
-   loop variables k, matchexp and values, which Python looks up when the lambda RUNS — after the loop — so every filter evaluates the
-   LAST relevant criterion (k, v); what a filter keeps from its own query is only which of the three branches created it.
-   (With one relevant query this is the single-filter semantics link_matches above.) *)
-Inductive fkind := KList | KHref | KGeneric.
-Definition kind_of (k : string) : fkind :=
-  if mem_str k LIST_VALUED_ATTRS then KList else if String.eqb k "href" then KHref else KGeneric.
-(* getattr(link, k) as the href-branch lambda evaluates it with the late-bound k: Link.href / attr_pairs / methods are real attributes,
-   everything else goes through Link.__getattr__ (vendored/link_header.py:248-274) *)
-Inductive pyval := PStr (s : string) | PNone | POther.
-Definition SINGLE_VALUED_ATTRS : list string := ["rel"; "anchor"; "rev"; "media"; "title"; "title*"; "type"].
-Definition LINK_FIELDS : list string := ["attr_pairs"; "to_py"; "get_context"; "get_target"].
-Definition raw_values (l : link) (k : string) : list (option string) :=
-  map snd (filter (fun a : attr => String.eqb (lower (fst a)) (lower k)) (snd l)).
-Definition link_getattr (l : link) (k : string) : M pyval :=
-  if String.eqb k "href" then Ok (PStr (fst l))
-  else if mem_str k LINK_FIELDS then Ok POther
-  else if mem_str k SINGLE_VALUED_ATTRS then
-    match raw_values l k with
-    | [] => Raise AttributeError
-    | Some s :: _ => Ok (PStr s)
-    | None :: _ => Ok PNone
-    end
-  else Ok POther.                                                        (* a list of values *)
-Definition matchexp_py (is_prefix : bool) (pat : string) (x : pyval) : M bool :=
-  match x with
-  | PStr s => Ok (matchexp is_prefix pat s)
-  | _ => if is_prefix then Raise AttributeError else Ok false            (* x.startswith on None / list / method; x == v is False *)
-  end.
-Definition eval_kind (kd : fkind) (k v : string) (l : link) : M bool :=
-  let is_prefix := ends_with_star v in
-  let pat := if is_prefix then drop_last_char v else v in
-  match kd with
-  | KList => Ok (existsb (matchexp is_prefix pat) (flat_map split_space (attr_values l k)))
-  | KGeneric => Ok (existsb (matchexp is_prefix pat) (attr_values l k))
-  | KHref => x <- link_getattr l k ;; matchexp_py is_prefix pat x
-  end.
-(* while filters: links = filter(filters.pop(), links) — lazily nested: per link the LAST appended filter runs first, a False stops *)
-Fixpoint all_kinds (kds : list fkind) (k v : string) (l : link) : M bool :=
-  match kds with
-  | [] => Ok true
-  | kd :: r => b <- eval_kind kd k v l ;; if b then all_kinds r k v l else Ok false
-  end.
-Fixpoint filter_m (f : link -> M bool) (ls : list link) : M (list link) :=
-  match ls with
-  | [] => Ok []
-  | l :: r => b <- f l ;; r' <- filter_m f r ;; Ok (if b then l :: r' else r')
-  end.
+(* ---- the Uri-Query options (resource.py:258-312).  Every query with "=" appends one filter, bound to its own k / v (f7c02cb); then
+   `while filters: links = filter(filters.pop(), links)`: the last criterion is applied innermost, the first outermost. *)
 Fixpoint relevant (queries : list string) : list (string * string) :=
   match queries with
   | [] => []
@@ -182,11 +136,7 @@ Fixpoint relevant (queries : list string) : list (string * string) :=
   end.
 Definition wkc_render_get (links : list link) (impl_info : option string) (queries : list string) : M (list link) :=
   let links := (links ++ impl_info_links impl_info)%list in
-  let rel := relevant queries in
-  match rev rel with
-  | [] => Ok links
-  | (k, v) :: _ => filter_m (all_kinds (rev (map (fun kv : string * string => kind_of (fst kv)) rel)) k v) links
-  end.
+  Ok (fold_right (fun (kv : string * string) acc => filter_links (fst kv) (snd kv) acc) links (relevant queries)).
 
 (* ------------------------------------------------------------------ dispatch *)
 (* what the harness observes: which handler ran with which uri_path / _original_request_path, and the path
